@@ -154,9 +154,14 @@ def q_joiner(q, who, conn):
     conn.close()
 
 
-def conn_sender(w, sizes, doomed):
-    """sends message m of sizes[m-1] bytes (alternating the send API), then closes"""
+def conn_sender(w, sizes, doomed, sig=False):
+    """sends message m of sizes[m-1] bytes (alternating the send API), then closes; with sig, a
+    handled signal arrives every 10 ms (a write cut short by it must be completed)"""
     from harness.conn import payload
+    if sig:
+        import signal
+        signal.signal(signal.SIGALRM, lambda *a: None)
+        signal.setitimer(signal.ITIMER_REAL, 0.01, 0.01)
     for m, n in enumerate(sizes, 1):
         data = payload(m, n)
         if n and n % 4 == 0 and m % 3 == 0:
